@@ -24,6 +24,7 @@ func init() {
 			"T7 narrow arithmetic: a multiplication of a decoded count by a constant element size carried out in 32 bits or less and feeding a comparison, a slice bound, an index or an allocation must be done after widening to 64 bits or be dominated by an upper-bound check of the count (sums of decoded offsets and sizes are validated relationally elsewhere and are not decided here). " +
 			"T9 the page loops of the SEV measurement run only after the address-range/alignment check returned nil. " +
 			"T10 sentinel index: the result of a bytes/strings/slices Index-family search (−1 = not found) used as an index, slice bound or allocation size needs a dominating sign test of that very value. T11 x[len(x)−k] / x[:len(x)−k] needs a dominating condition on that very slice value establishing len(x) ≥ k (one named suppression with reason in C07). T12 +,−,*,<< on a decoded operand carried out in fewer bits than the integer type its result is then converted to needs a dominating upper bound of the operand. T13 (ESP) a []byte sliced at bounds that move with a loop counter, in a loop that runs up to a value not computed from the buffer's length, is reached only on paths where executed checks relate that value to the buffer length through some chain of comparisons (decides that a relating chain exists, not that it is arithmetically sufficient). " +
+			"T14 (ESP) lock step: where an index saved from a loop is used after the loop to index a slice field that the loop appends to, every iteration of that loop appends to the field exactly once on every path. " +
 			"Not covered: general absence of panics for non-constant indices (would need a relational numeric domain sound under wrap-around), wall-time bounds as numbers.",
 		Assumptions: []string{"go/types, go/ssa, VTA call graph", "encoding/binary"},
 		Run:         runC08,
@@ -85,6 +86,7 @@ func runC08(c *Ctx) {
 	c.sentinelRule("T10", fns)
 	c.lenMinusRule("T11", fns, map[string]string{})
 	c.widenAfterArithRule("T12", fns)
+	c.S.Floor("T14", "slice fields indexed by a counter saved from the loop that fills them", 1, c.lockStepRule("T14", fns))
 	c.S.Floor("T13", "slices at loop-carried bounds under a foreign loop bound", 1, c.foreignBoundSliceRule("T13", fns))
 	if os.Getenv("VCHECK_SURVEY") != "" {
 		c.surveyAccesses(fns)
